@@ -104,6 +104,8 @@ def absorb(m, r, label):
         t = m["oracles"].setdefault(k, {"n": 0, "pass": 0, "grey": 0, "fail": 0, "max_err": 0.0, "max_err_pass": 0.0})
         for f in ("n", "pass", "grey", "fail"):
             t[f] += o[f]
+        if o.get("skip"):
+            t["skip"] = t.get("skip", 0) + o["skip"]
         t["max_err"] = max(t["max_err"], o["max_err"])
         t["max_err_pass"] = max(t["max_err_pass"], o["max_err_pass"])
     for k, v in r["violations"].items():
@@ -260,6 +262,7 @@ def main(argv=None):
 
     wall = time.time() - t0
     grey = sum(o["grey"] for o in m["oracles"].values())
+    unjudged = sum(o.get("skip", 0) for o in m["oracles"].values())
     nontriv = len(m["nontrivial"])
     samples = m["samples"][:6] or [{"note": "no sample recorded"}]
     cov = {
@@ -269,6 +272,7 @@ def main(argv=None):
         "samples": samples,
         "decided_evaluations": int(decided),
         "grey_zone": int(grey),
+        "unjudged_by_design": int(unjudged),
         "oracles": m["oracles"],
         "counters": m["counters"],
         "exceptions_by_site": m["exceptions"],
@@ -304,7 +308,7 @@ def main(argv=None):
 
     for ln in lines:
         print(ln)
-    print(f"{prop} {tier} seed={seed}: status={status} evaluations={evaluations} decided={decided} grey={grey} "
+    print(f"{prop} {tier} seed={seed}: status={status} evaluations={evaluations} decided={decided} grey={grey} unjudged={unjudged} "
           f"distinct_nontrivial={nontriv} known={len(known_hit)} unlisted={len(unlisted)} shards={len(shard_params)} wall={wall:.1f}s")
     if status == "violated":
         return 1
